@@ -54,3 +54,33 @@ def guarded(fn, *a, **k):
     finally:
         signal.setitimer(signal.ITIMER_REAL, 0)
         signal.signal(signal.SIGALRM, old)
+
+
+# ---------------------------------------------------------------------------------------------------------------------
+# Model objects are POOLED: a model is a description (gamma, g, convection speed) and the properties hold for "every call
+# history"; the harness therefore hands the same model object to many unrelated cases (other states, other sides, other
+# parameters, other meshes) instead of building a fresh one per case, so that anything a model object remembers from one
+# use shows up in the next (a boundary state cached on a key that omits a parameter, a shared registry, ...).
+# Not pooled: models with user sources and the nozzle (bound to one mesh at a time, DESIGN.md 8.2 O1).
+_POOL = {}
+
+
+def pool(kind, **kw):
+    key = (kind,) + tuple(sorted(kw.items()))
+    m = _POOL.get(key)
+    if m is None:
+        if kind == 'euler1d':
+            m = euler.euler1d(**kw)
+        elif kind == 'euler2d':
+            m = euler.euler2d(**kw)
+        elif kind == 'sw':
+            m = shallowwater.shallowwater1d(**kw)
+        elif kind == 'conv':
+            m = convection.model(kw['a'])
+        elif kind == 'burgers':
+            m = burgers.model()
+        else:
+            raise KeyError(kind)
+        if len(_POOL) < 400:
+            _POOL[key] = m
+    return m
